@@ -167,26 +167,31 @@ structure Cfg where
   usingInit : Bool
   minlen : Int
 
-/-- `ESL_GENCODE_WORKSTATE`, stateful part; `out` = ORFs emitted so far, most recent first -/
-structure Work where
+/-- `ESL_GENCODE_WORKSTATE`, stateful part except the rolling codon; `out` = ORFs emitted so far, most recent first -/
+structure Core where
   f0 : FrameSt := {}
   f1 : FrameSt := {}
   f2 : FrameSt := {}
   apos : Int := 1
   frame : Nat := 0
-  codon : Nat := 0
-  inval : Nat := 0
   isRev : Bool := false
   orfcount : Nat := 0
   out : List Orf := []
   deriving DecidableEq, Repr
 
-def Work.getF (w : Work) : FrameSt := if w.frame = 0 then w.f0 else if w.frame = 1 then w.f1 else w.f2
-def Work.setF (w : Work) (f : FrameSt) : Work :=
+/-- the work state: `Core` + the rolling digitized codon `wrk->codon` and the degeneracy countdown `wrk->inval` -/
+structure Work where
+  c : Core := {}
+  codon : Nat := 0
+  inval : Nat := 0
+  deriving DecidableEq, Repr
+
+def Core.getF (w : Core) : FrameSt := if w.frame = 0 then w.f0 else if w.frame = 1 then w.f1 else w.f2
+def Core.setF (w : Core) (f : FrameSt) : Core :=
   if w.frame = 0 then { w with f0 := f } else if w.frame = 1 then { w with f1 := f } else { w with f2 := f }
 
 /-- `esl_gencode_ProcessOrf` -/
-def processOrf (cfg : Cfg) (w : Work) : Work :=
+def processOrf (cfg : Cfg) (w : Core) : Core :=
   let p := w.getF
   let stop : Int := if w.isRev then w.apos + 1 else w.apos - 1
   let w := if p.inOrf && decide ((p.rev.length : Int) ≥ cfg.minlen) then
@@ -198,37 +203,43 @@ def processOrf (cfg : Cfg) (w : Work) : Work :=
 
 /-- `esl_gencode_ProcessStart(gcode, wrk, sq)`: `d1 d2` = `sq->dsq[1], sq->dsq[2]`; keeps `orfcount` and the output -/
 def processStart (nt : Alphabet) (w : Work) (isRev : Bool) (L : Int) (d1 d2 : Nat) : Work :=
-  let w : Work := { orfcount := w.orfcount, out := w.out, isRev := isRev, apos := if isRev then L else 1 }
+  let c : Core := { orfcount := w.c.orfcount, out := w.c.out, isRev := isRev, apos := if isRev then L else 1 }
+  let w : Work := { c := c }
   let w := if nt.xIsCanonical d1 then { w with codon := w.codon + 4 * d1 } else { w with inval := 1 }
   if nt.xIsCanonical d2 then { w with codon := w.codon + d2 } else { w with inval := 2 }
+
+/-- the part of the loop body of `esl_gencode_ProcessPiece` after the residue `res` of the current codon is known:
+    stop codon ⇒ ProcessOrf; append the residue if in an ORF; advance -/
+def finishStep (aa : Alphabet) (cfg : Cfg) (w : Core) (res : Nat) : Core :=
+  let w := if aa.xIsNonresidue res then processOrf cfg w else w
+  let p := w.getF
+  let w := if p.inOrf then w.setF { p with rev := res :: p.rev } else w
+  { w with apos := if w.isRev then w.apos - 1 else w.apos + 1, frame := (w.frame + 1) % 3 }
 
 /-- one iteration of the `rpos` loop of `esl_gencode_ProcessPiece` on the codon `a b c = dsq[rpos..rpos+2]` -/
 def pieceStep (nt aa : Alphabet) (g : Gencode) (cfg : Cfg) (w : Work) (a b c : Nat) : Option Work := do
   let w := { w with codon := (w.codon * 4) % 64 }
   let w := if nt.xIsCanonical c then { w with codon := w.codon + c } else { w with inval := 3 }
   let met := aa.inmapAt 77
-  let (res, w) ← (if w.inval > 0 then do
-      let t ← getTranslation nt aa g a b c
-      let t8 : Nat := (t % 256).toNat           -- the `int` is stored into an ESL_DSQ
-      let p := w.getF
-      let (t8, w) ← (if !p.inOrf then do
-          let ini ← isInitiator nt g a b c
-          if ini ≠ 0 then
-            some (if cfg.usingInit then met else t8, w.setF { p with inOrf := true, start := w.apos })
-          else some (t8, w)
-        else some (t8, w))
-      some (t8, { w with inval := w.inval - 1 })
-    else do
-      let t ← g.basic[w.codon]?
-      let ini ← g.isInit[w.codon]?
-      let p := w.getF
-      if ini ≠ 0 && !p.inOrf then
-        some (if cfg.usingInit then met else t, w.setF { p with inOrf := true, start := w.apos })
-      else some (t, w))
-  let w := if aa.xIsNonresidue res then processOrf cfg w else w
-  let p := w.getF
-  let w := if p.inOrf then w.setF { p with rev := res :: p.rev } else w
-  some { w with apos := if w.isRev then w.apos - 1 else w.apos + 1, frame := (w.frame + 1) % 3 }
+  if w.inval > 0 then do
+    let t ← getTranslation nt aa g a b c
+    let t8 : Nat := (t % 256).toNat           -- the `int` is stored into an ESL_DSQ
+    let p := w.c.getF
+    let (t8, core) ← (if !p.inOrf then do
+        let ini ← isInitiator nt g a b c
+        if ini ≠ 0 then
+          some (if cfg.usingInit then met else t8, w.c.setF { p with inOrf := true, start := w.c.apos })
+        else some (t8, w.c)
+      else some (t8, w.c))
+    some { w with c := finishStep aa cfg core t8, inval := w.inval - 1 }
+  else do
+    let t ← g.basic[w.codon]?
+    let ini ← g.isInit[w.codon]?
+    let p := w.c.getF
+    let (t, core) := if ini ≠ 0 && !p.inOrf then
+        (if cfg.usingInit then met else t, w.c.setF { p with inOrf := true, start := w.c.apos })
+      else (t, w.c)
+    some { w with c := finishStep aa cfg core t }
 
 /-- `esl_gencode_ProcessPiece(gcode, wrk, sq)` on a window `d = sq->dsq[1..n]` -/
 def processPiece (nt aa : Alphabet) (g : Gencode) (cfg : Cfg) : Work → List Nat → Option Work
@@ -238,8 +249,8 @@ def processPiece (nt aa : Alphabet) (g : Gencode) (cfg : Cfg) : Work → List Na
   | w, _ => some w
 
 /-- `esl_gencode_ProcessEnd` -/
-def processEnd (cfg : Cfg) (w : Work) : Work :=
-  let step (w : Work) : Work :=
+def processEnd (cfg : Cfg) (w : Core) : Core :=
+  let step (w : Core) : Core :=
     let w := processOrf cfg w
     { w with apos := if w.isRev then w.apos - 1 else w.apos + 1, frame := (w.frame + 1) % 3 }
   step (step (step w))
@@ -258,6 +269,6 @@ def runStrand (nt aa : Alphabet) (g : Gencode) (cfg : Cfg) (w : Work) (isRev : B
   let wins := windows [] d cuts
   let w := processStart nt w isRev d.length (d.getD 0 0) (d.getD 1 0)
   let w ← wins.foldlM (fun w win => processPiece nt aa g cfg w win) w
-  some (processEnd cfg w)
+  some { w with c := processEnd cfg w.c }
 
 end EaselModel.Gencode
